@@ -454,7 +454,7 @@ pub fn c14<T: Px>(thorough: bool) -> Vec<CellDef> {
     }));
     {
         let mut l = alphabet(32, 2, true);
-        let low = if thorough { 12 } else { 16 };
+        let low = if thorough { 9 } else { 16 };
         l.extend((0..lattice_len(32, low)).map(|i| lattice_key(32, low, i)));
         l.sort();
         l.dedup();
@@ -638,7 +638,7 @@ pub fn c14<T: Px>(thorough: bool) -> Vec<CellDef> {
         }
     }
     {
-        let low = if thorough { 10 } else { 14 };
+        let low = if thorough { 7 } else { 14 };
         v.push(CellDef::new(
             "C14",
             format!("{}/from_f32", T::name()),
@@ -660,7 +660,7 @@ pub fn c14<T: Px>(thorough: bool) -> Vec<CellDef> {
     }
     // from integers (stubs whose whole body is todo!() are outside the property: reported by from_* -> None)
     let ints32 = |t: bool| -> Vec<(String, Space)> {
-        let low = if t { 12 } else { 16 };
+        let low = if t { 9 } else { 16 };
         vec![
             (String::new(), Space::func(lattice_len(32, low), format!("lattice(top {} bits x low menu)", 32 - low), move |i| lattice_key(32, low, i) as u128)),
             ("#small".into(), Space::func(140_001, "-70000..=70000", |i| (i as i64 - 70_000) as i32 as u32 as u128)),
@@ -690,7 +690,7 @@ pub fn c14<T: Px>(thorough: bool) -> Vec<CellDef> {
             }));
         }
     }
-    let hb = if thorough { 16 } else { 12 };
+    let hb = if thorough { 18 } else { 12 };
     let ints64 = move || -> Vec<(String, Space)> {
         let ext: Vec<u128> = {
             let mut l = vec![];
